@@ -208,6 +208,7 @@ fn macro_expand(
         };
         let mut iter = macro_body.iter().map(|x| (x.0.line_num, x.1.as_str()));
         let parse_context = ParseContext {
+            include_depth: 0,
             current_path: context.current_path.clone(),
             include_paths: context.include_paths.clone(),
             common_context: context.common_context.clone(),
